@@ -55,8 +55,8 @@ type Monitors struct {
 	idx      int
 	pubs     map[uuid.UUID]*pubRecord // by message id
 	leases   map[uuid.UUID]*leaseRecord
-	acked    map[uuid.UUID]int64    // delivery id -> instant of the successful ack
-	lastSeek map[uuid.UUID]int64    // subscription id -> instant of the last seek
+	acked    map[uuid.UUID]int64 // delivery id -> instant of the successful ack
+	lastSeek map[uuid.UUID]int64 // subscription id -> instant of the last seek
 	// the retry policy each subscription was asked to have (CreateSubscription / UpdateSubscription
 	// requests; 0 = not given), independent of what the implementation stored
 	policy map[uuid.UUID][2]int64
@@ -64,6 +64,8 @@ type Monitors struct {
 	reqDL map[uuid.UUID]dlReq
 	// deliveries a seek re-opened although their retention had ended
 	revivedExpired map[uuid.UUID]bool
+	// the delivery delay that was injected on the subscription when the delivery was enqueued
+	delayAt  map[uuid.UUID]int64
 	reopened map[uuid.UUID]bool     // deliveries re-opened by a seek at some point
 	handouts map[uuid.UUID]int      // delivery id -> number of times handed out (since last re-open)
 	snaps    map[string]*snapRecord // by snapshot name
@@ -86,7 +88,7 @@ type LinkMis struct {
 
 func NewMonitors() *Monitors {
 	return &Monitors{pubs: map[uuid.UUID]*pubRecord{}, leases: map[uuid.UUID]*leaseRecord{}, acked: map[uuid.UUID]int64{},
-		policy: map[uuid.UUID][2]int64{}, reqDL: map[uuid.UUID]dlReq{}, revivedExpired: map[uuid.UUID]bool{}, lastSeek: map[uuid.UUID]int64{}, reopened: map[uuid.UUID]bool{}, handouts: map[uuid.UUID]int{}, snaps: map[string]*snapRecord{},
+		policy: map[uuid.UUID][2]int64{}, reqDL: map[uuid.UUID]dlReq{}, revivedExpired: map[uuid.UUID]bool{}, delayAt: map[uuid.UUID]int64{}, lastSeek: map[uuid.UUID]int64{}, reopened: map[uuid.UUID]bool{}, handouts: map[uuid.UUID]int{}, snaps: map[string]*snapRecord{},
 		lastPull: map[uuid.UUID]int64{}, dlDone: map[uuid.UUID]bool{}, Counts: map[string]int{}, linkMissing: map[uuid.UUID]bool{}, seekAcked: map[uuid.UUID]bool{}}
 }
 
@@ -455,6 +457,7 @@ func (m *Monitors) Observe(idx int, r *Result) {
 						if ns(d.ExpiresAt) != ns(d.PublishedAt)+int64(sb.MessageTTL) {
 							m.fire("C14", "retention-at-publish", "message n=%d on subscription %s (retention %d ns) is retained for %d ns from its publish", spec.N, sb.Name, int64(sb.MessageTTL), ns(d.ExpiresAt)-ns(d.PublishedAt))
 						}
+						m.delayAt[did] = int64(sb.DeliveryDelay)
 						if ns(d.AttemptAt) != ns(d.PublishedAt)+int64(sb.DeliveryDelay) {
 							m.fire("C14", "delay-at-publish", "message n=%d on subscription %s (injected delay %d ns) is first due %d ns after its publish", spec.N, sb.Name, int64(sb.DeliveryDelay), ns(d.AttemptAt)-ns(d.PublishedAt))
 						}
@@ -612,6 +615,14 @@ func (m *Monitors) Observe(idx int, r *Result) {
 			}
 			m.leases[d.ID] = &leaseRecord{attempt: d.Attempt, t: now, deadline: now + nominal - tol}
 			m.handouts[d.ID]++
+			if dl, known := m.delayAt[d.ID]; known && dl > 0 && now < ns(b.PublishedAt)+dl {
+				sig := "delivered-before-delay"
+				if m.reopened[d.ID] {
+					// acknowledged by a Seek forward before it was ever due, re-opened by a Seek back (attempt_at = now)
+					sig = "delay-skipped-after-seek"
+				}
+				m.fire("C14", sig, "delivery %s (enqueued at %d with an injected delay of %d ns) was handed out at %d, %d ns after its publish", d.ID, ns(b.PublishedAt), dl, now, now-ns(b.PublishedAt))
+			}
 			if hasFullDL(sub) && m.handouts[d.ID] > int(*sub.MaxDeliveryAttempts) && !m.reopened[d.ID] {
 				m.fire("C06", "too-many-attempts", "delivery %s handed out %d times on %s with max_delivery_attempts=%d", d.ID, m.handouts[d.ID], sub.Name, *sub.MaxDeliveryAttempts)
 			}
